@@ -12,7 +12,10 @@ MIN_CASES = {"quick": 2000, "thorough": 20000}
 RULE = ("Hypothesis draws an operator-expression tree top-down for a drawn target shape (all kinds of the property, "
         "depth 0-4, leaf dims 1-6, integer payloads in f32/f64/c64/c128) plus right operands; oracle = independent NumPy "
         "reference interpreter. Non-trivial: tree has >=2 nodes, or is a structured (non-Dense) leaf that is non-square, "
-        "complex, or multiplied into an operand of another dtype. distinct = distinct canonical-JSON hashes of such cases.")
+        "complex, or multiplied into an operand of another dtype. distinct = distinct canonical-JSON hashes of such cases. One "
+        "case in five is an annotated structured operator (Kronecker / BlockDiag / Tridiagonal / sums, Hermitian, PD or unitary by "
+        "construction, complex emphasised, declared on leaves and/or the composite), alone or under T / H / product / sum / "
+        "Kronecker / block-diagonal / positive scalar / slice with equal or permuted index sets.")
 ASSUMPTIONS = [
     "NumPy backend only, with the harness shim for vmap/linear_transpose/sparse_csr/to_np/jvp (DESIGN 3.1)",
     "integer payloads: exact equality demanded while |A||x| < 2^22 (f32) / 2^50 (f64); otherwise |err| <= 1e3*eps*|A||x|",
@@ -51,10 +54,17 @@ def target_shape(g):
 
 @st.composite
 def cases(draw, tier):
-    g = gen.TreeGen(draw, avoid=AVOID)
-    r, c = target_shape(g)
-    depth = g.pick([0, 1, 1, 2, 2, 3] + ([4] if tier == "thorough" else []))
-    tree = g.op(r, c, depth)
+    emph = draw(st.sampled_from(["any", "any", "any", "any", "ann"]))
+    g = gen.TraitGen(draw, avoid=AVOID, dtypes=gen.CPLX + gen.CPLX + gen.ALLDT if emph == "ann" else gen.ALLDT)
+    if emph == "ann":
+        # annotated wrappers around structured (by construction Hermitian / positive definite / unitary) operators, real
+        # and complex, alone or under one combinator: the annotation-driven short-cuts of products and transposes
+        tree = g.annotated(g.integer(1, 6), g.pick([0, 1, 1, 2]))
+        r, c = IR.denote(tree).shape
+    else:
+        r, c = target_shape(g)
+        depth = g.pick([0, 1, 1, 2, 2, 3] + ([4] if tier == "thorough" else []))
+        tree = g.op(r, c, depth)
     return {"tree": tree, "x": g.operand(c, ranks=(1, )), "X": g.operand(c, ranks=(2, ))}
 
 
